@@ -137,7 +137,9 @@ def jobs(tier):
                 out.append(Job("queue-history", h_history, dict(first=[a, b], depth=depth), cost=2))
             else:
                 for c in OPS:
-                    out.append(Job("queue-history", h_history, dict(first=[a, b, c], depth=depth), cost=2))
+                    heavy = [a, b, c].count("enqueue")
+                    out.append(Job("queue-history", h_history, dict(first=[a, b, c], depth=depth), cost=2 + 10 * heavy,
+                                   shards=(1, 2, 6, 16)[heavy]))
     return out
 
 
